@@ -87,7 +87,7 @@ func (s *MultiEventSyncer) Sync(ctx context.Context, header *types.Header) error
 		Msg("starting multi event sync")
 	numEvents := 0
 	for _, r := range syncRanges {
-		numEventsInRange, err := s.syncRange(ctx, r[0], r[1])
+		numEventsInRange, err := s.syncRangeSplit(ctx, r[0], r[1])
 		if err != nil {
 			return errors.Wrapf(err, "failed to sync range [%d, %d]", r[0], r[1])
 		}
@@ -100,6 +100,56 @@ func (s *MultiEventSyncer) Sync(ctx context.Context, header *types.Header) error
 		Int("num-events", numEvents).
 		Msg("completed multi event sync")
 	return nil
+}
+
+// syncRangeSplit syncs the given range in sub-ranges that end at the blocks reported by processors
+// implementing RangeSplitter. Processors fetch their events before the events of the other
+// processors for the same range have been stored. Without splitting, an event trigger registered
+// in block b and a matching log in a later block of the same range would go unnoticed, because
+// the trigger processor does not know about the trigger yet when it fetches the range, and the
+// range is never looked at again. The outcome would then depend on how many blocks are synced at
+// once. With splitting, the registration in block b is stored (together with the sync status b)
+// before anything after b is fetched.
+func (s *MultiEventSyncer) syncRangeSplit(ctx context.Context, start, end uint64) (int, error) {
+	numEvents := 0
+	for start <= end {
+		splitEnd, err := s.firstSplitBlock(ctx, start, end)
+		if err != nil {
+			return numEvents, err
+		}
+		numEventsInRange, err := s.syncRange(ctx, start, splitEnd)
+		if err != nil {
+			return numEvents, err
+		}
+		numEvents += numEventsInRange
+		start = splitEnd + 1
+	}
+	return numEvents, nil
+}
+
+// firstSplitBlock returns the smallest block in [start, end] at which the range has to be split,
+// or end if it can be synced in one go.
+func (s *MultiEventSyncer) firstSplitBlock(ctx context.Context, start, end uint64) (uint64, error) {
+	splitEnd := end
+	if start == end {
+		return splitEnd, nil
+	}
+	for name, processor := range s.Processors {
+		splitter, ok := processor.(RangeSplitter)
+		if !ok {
+			continue
+		}
+		events, err := processor.FetchEvents(ctx, start, end)
+		if err != nil {
+			return 0, errors.Wrapf(err, "failed to fetch events for processor %s in range [%d, %d]", name, start, end)
+		}
+		for _, block := range splitter.SplitBlocks(events) {
+			if block >= start && block < splitEnd {
+				splitEnd = block
+			}
+		}
+	}
+	return splitEnd, nil
 }
 
 func (s *MultiEventSyncer) syncRange(ctx context.Context, start, end uint64) (int, error) {
